@@ -390,7 +390,6 @@ macro_rules! backend_impl {
                         }
                         ENCRYPT => {
                             let mag = if s[8] == 2 { (s[9] as f64).max(1.0) } else { 1.0 };
-                            let mag = if s[8] == 2 { mag } else { 1.0 };
                             match cx.pt_znx(s[4], s[5], 0, cx.base2k, s[7] as u64, s[8], mag) {
                                 None => { st = ST_OTHER; }
                                 Some((pt, qre, qim)) => {
@@ -643,10 +642,16 @@ macro_rules! backend_impl {
                         _ => { dst.valid = false; }
                     }
                     if op == ALLOC || op == SET_META { dst.valid = false; }
-                    // value check
+                    // value check.  A value is representable only while every coefficient stays below 2^(log_budget-1):
+                    // |coefficient| <= max slot modulus `cb`; beyond that there is no statement (the shadow becomes undefined)
                     let (mut errs, mut mag) = (-1i128, 0i128);
-                    if st == ST_OK && dst.valid && dst.re.iter().chain(dst.im.iter()).all(|v| v.is_finite() && v.abs() < 1e30) {
-                        mag = dst.re.iter().zip(dst.im.iter()).map(|(x, y)| x.abs().max(y.abs())).fold(0.0, f64::max).ceil() as i128 + 1;
+                    if dst.valid {
+                        let cb = dst.re.iter().zip(dst.im.iter()).map(|(x, y)| x.hypot(*y)).fold(0.0, f64::max);
+                        let lim = (dst.ct.log_budget() as f64 - 1.0).exp2();
+                        let noise = 64.0 * cx.n as f64 * (-(dst.ct.log_delta() as f64)).exp2();
+                        if !(cb.is_finite() && cb * (1.0 + 2f64.powi(-45)) + noise < lim && cb < 1e30) { dst.valid = false; } else { mag = cb.ceil() as i128 + 1; }
+                    }
+                    if st == ST_OK && dst.valid {
                         if let Some((re, im)) = cx.dec(&dst.ct) {
                             let e = (0..m).map(|i| (re[i] - dst.re[i]).abs().max((im[i] - dst.im[i]).abs())).fold(0.0, f64::max);
                             let sc = e * (dst.ct.log_delta() as f64).exp2();
@@ -747,37 +752,234 @@ pub fn exec(r: &Rec) -> Out {
     })
 }
 
+/// overflow checks of this build (the dev profile has them, the release profile of the harness turns them off)
+pub fn chk_flag() -> i128 { if cfg!(debug_assertions) { 1 } else { 0 } }
+
+fn st(v: &[i128]) -> Vec<i128> { let mut x = v.to_vec(); x.resize(10, 0); x }
+
+/// programs that are generated while being executed, so that most steps are plausible for the current metadata
+macro_rules! gen_impl {
+    ($m:ident) => {
+        fn $m(rng: &mut Rng, logn: usize, b2k: usize, kmax: usize, nsteps: usize, defects: bool) -> Vec<Vec<i128>> {
+            let mut mach = $m::Machine::new(logn, b2k, kmax);
+            let b = b2k as i128;
+            let maxsz = (kmax / b2k) as i128;
+            let mut prog: Vec<Vec<i128>> = Vec::new();
+            let mut push = |mach: &mut $m::Machine, prog: &mut Vec<Vec<i128>>, s: Vec<i128>| -> i128 {
+                let row = mach.step(&s);
+                prog.push(s);
+                row[0]
+            };
+            // registers of unequal limb counts
+            for r in 0..NREGS as i128 {
+                let sz = match rng.below(6) { 0 => maxsz, 1 => maxsz + 1, 2 => 1 + rng.below(2) as i128, _ => 1 + rng.below(maxsz as u64) as i128 };
+                push(&mut mach, &mut prog, st(&[ALLOC, r, 0, 0, sz]));
+            }
+            let fresh = |rng: &mut Rng, mach: &mut $m::Machine, prog: &mut Vec<Vec<i128>>, r: i128, push: &mut dyn FnMut(&mut $m::Machine, &mut Vec<Vec<i128>>, Vec<i128>) -> i128| {
+                let (_, _, sz) = mach.meta(r as usize);
+                let mk = sz * b;
+                let ld = rng.range(8, 45.min(mk as i64 - 2).max(8)) as i128;
+                let enc_k = if rng.below(8) == 0 { rng.range(1, mk as i64) as i128 } else { mk - rng.below(b as u64) as i128 }.max(1);
+                let room = (enc_k - ld).max(0);
+                let lbp = if rng.below(6) == 0 { rng.below(40) as i128 } else { rng.below(1 + room.min(24) as u64) as i128 };
+                let (kind, mag) = if rng.below(10) == 0 && room >= 3 { (2, (1i128 << (room.min(40) - 1)) - 2) } else { (rng.below(2) as i128 * 3, 0) };
+                push(mach, prog, st(&[ENCRYPT, r, 0, 0, ld, lbp, enc_k, rng.next() as u32 as i128, kind, mag]));
+            };
+            for r in 0..3 { fresh(rng, &mut mach, &mut prog, r, &mut push); }
+            let mut poisoned: Vec<bool> = vec![false; NREGS];
+            for _ in 0..nsteps {
+                let d = rng.below(NREGS as u64) as usize;
+                let mut a = rng.below(NREGS as u64) as usize;
+                let mut bb = rng.below(NREGS as u64) as usize;
+                if a == d { a = (a + 1) % NREGS; }
+                if bb == d { bb = (bb + 2) % NREGS; if bb == d { bb = (bb + 1) % NREGS; } }
+                let (dl, dbud, dsz) = mach.meta(d);
+                let (al, abud, asz) = mach.meta(a);
+                let (bl, bbud, _bsz) = mach.meta(bb);
+                let dmk = dsz * b;
+                let wild = rng.below(6) == 0;
+                // the register is refreshed when its metadata was left inconsistent by a failed call (unless defects are wanted)
+                if poisoned[d] && !(defects && rng.below(3) == 0) {
+                    let sz = 1 + rng.below(maxsz as u64) as i128;
+                    push(&mut mach, &mut prog, st(&[ALLOC, d as i128, 0, 0, sz]));
+                    poisoned[d] = false;
+                    if rng.below(2) == 0 { fresh(rng, &mut mach, &mut prog, d as i128, &mut push); }
+                    continue;
+                }
+                let (d, a, bb) = (d as i128, a as i128, bb as i128);
+                let aeff = al + abud;
+                let off_a = (aeff - dmk).max(0);
+                let ptmeta = |rng: &mut Rng, budget: i128| -> (i128, i128) {
+                    let l = if wild { rng.range(0, 60) as i128 } else { rng.range(4, 44) as i128 };
+                    let bmax = if wild { 60 } else { budget.clamp(0, 24) };
+                    (l, rng.below(1 + bmax as u64) as i128)
+                };
+                let seed = rng.next() as u32 as i128;
+                let parts = if rng.below(8) == 0 { 0 } else { 1 + rng.below(3) as i128 };
+                let s: Vec<i128> = match rng.below(40) {
+                    0 => st(&[ADD_INTO, d, a, bb]),
+                    1 => st(&[SUB_INTO, d, a, bb]),
+                    2 => st(&[ADD_ASSIGN, d, a]),
+                    3 => st(&[SUB_ASSIGN, d, a]),
+                    4 | 5 => {
+                        let into = rng.below(2) == 0;
+                        let budget = if into { abud - off_a } else { dbud };
+                        let (l, lbp) = ptmeta(rng, budget);
+                        let extra = if rng.below(5) == 0 { 1 } else { 0 };
+                        let pb = if rng.below(16) == 0 { b + 1 } else { b };
+                        let op = *[[ADD_PTZ_ASSIGN, SUB_PTZ_ASSIGN], [ADD_PTZ_INTO, SUB_PTZ_INTO]][into as usize].get(rng.below(2) as usize).unwrap();
+                        st(&[op, d, a, 0, l, lbp, extra, seed, 0, pb])
+                    }
+                    6 | 7 => {
+                        let into = rng.below(2) == 0;
+                        let budget = if into { abud - off_a } else { dbud };
+                        let (l, lbp) = ptmeta(rng, budget);
+                        let op = *[[ADD_PTR_ASSIGN, SUB_PTR_ASSIGN], [ADD_PTR_INTO, SUB_PTR_INTO]][into as usize].get(rng.below(2) as usize).unwrap();
+                        st(&[op, d, a, 0, l, lbp, 0, seed, 0, b])
+                    }
+                    8 | 9 => {
+                        // constant in ZNX form, aligned to the destination most of the time
+                        let into = rng.below(2) == 0;
+                        let (srcl, resb) = if into { (al, (abud - off_a).max(0)) } else { (dl, dbud) };
+                        let slack = (dmk - resb - srcl).max(0);
+                        let l = if wild { rng.range(0, 56) as i128 } else { rng.range(2, (srcl + slack).clamp(2, 50) as i64) as i128 };
+                        let k = if rng.below(5) == 0 { (resb + l - rng.range(-3, 6) as i128).max(0) } else { resb + l };
+                        let fits = (k + b - 1) / b <= dsz;
+                        let l = if !fits && !(defects && rng.below(2) == 0) { srcl.min(50) } else { l };
+                        let k = if !fits && !(defects && rng.below(2) == 0) { resb + l } else { k };
+                        let op = *[[ADD_CZ_ASSIGN, SUB_CZ_ASSIGN], [ADD_CZ_INTO, SUB_CZ_INTO]][into as usize].get(rng.below(2) as usize).unwrap();
+                        st(&[op, d, a, 0, l, k, parts, seed])
+                    }
+                    10 | 11 => {
+                        let into = rng.below(2) == 0;
+                        let (srcl, resb) = if into { (al, (abud - off_a).max(0)) } else { (dl, dbud) };
+                        let slack = (dmk - resb - srcl).max(0);
+                        let mut l = if wild { rng.range(0, 60) as i128 } else { rng.range(2, 50) as i128 };
+                        // a constant more precise than what the destination stores panics (known class): keep it rare
+                        if (resb + l + b - 1) / b > dsz && !(defects && rng.below(2) == 0) { l = (srcl + slack).min(50).max(0); }
+                        let op = *[[ADD_CR_ASSIGN, SUB_CR_ASSIGN], [ADD_CR_INTO, SUB_CR_INTO]][into as usize].get(rng.below(2) as usize).unwrap();
+                        st(&[op, d, a, 0, l, rng.below(30) as i128, parts, seed])
+                    }
+                    12 => st(&[NEG_INTO, d, a]),
+                    13 => st(&[NEG_ASSIGN, d]),
+                    14 | 15 => st(&[MUL_INTO, d, a, bb]),
+                    16 => st(&[MUL_ASSIGN, d, a]),
+                    17 => st(&[SQUARE_INTO, d, a]),
+                    18 => st(&[SQUARE_ASSIGN, d]),
+                    19 | 20 => {
+                        let (l, lbp) = ptmeta(rng, 20);
+                        let op = *[MUL_PTZ_INTO, MUL_PTZ_ASSIGN, MUL_PTR_INTO, MUL_PTR_ASSIGN, MULADD_PTZ, MULSUB_PTZ, MULADD_PTR, MULSUB_PTR].get(rng.below(8) as usize).unwrap();
+                        let extra = if rng.below(5) == 0 { 1 } else { 0 };
+                        st(&[op, d, a, 0, l, lbp, extra, seed, 0, b])
+                    }
+                    21 | 22 => {
+                        let (l, lbp) = ptmeta(rng, 20);
+                        let op = *[MUL_CZ_INTO, MUL_CZ_ASSIGN, MUL_CR_INTO, MUL_CR_ASSIGN, MULADD_CZ, MULSUB_CZ, MULADD_CR, MULSUB_CR].get(rng.below(8) as usize).unwrap();
+                        st(&[op, d, a, 0, l, lbp, parts, seed])
+                    }
+                    23 => st(&[if rng.below(2) == 0 { MULADD_CT } else { MULSUB_CT }, d, a, bb]),
+                    24 => st(&[MULPOW2_INTO, d, a, 0, if wild { rng.below(70) as i128 } else { rng.below(4) as i128 }]),
+                    25 => st(&[MULPOW2_ASSIGN, d, 0, 0, if wild { rng.below(70) as i128 } else { rng.below(4) as i128 }]),
+                    26 => st(&[DIVPOW2_INTO, d, a, 0, if wild { rng.below(200) as i128 } else { rng.below(1 + (abud - off_a).clamp(0, 12) as u64) as i128 }]),
+                    27 => st(&[DIVPOW2_ASSIGN, d, 0, 0, if wild { rng.below(200) as i128 } else { rng.below(1 + dbud.clamp(0, 12) as u64) as i128 }]),
+                    28 | 29 => {
+                        let k = if rng.below(4) == 0 { *[0i128, 2, -1, 7, 3, -5].get(rng.below(6) as usize).unwrap() } else { *[1i128, 5].get(rng.below(2) as usize).unwrap() };
+                        if rng.below(2) == 0 { st(&[ROTATE_INTO, d, a, 0, k]) } else { st(&[ROTATE_ASSIGN, d, 0, 0, k]) }
+                    }
+                    30 => st(&[CONJ_INTO, d, a]),
+                    31 => st(&[CONJ_ASSIGN, d]),
+                    32 => {
+                        // rescale into a destination that cannot hold the result returns Ok with inconsistent metadata (known class): keep it rare
+                        let mut k = if wild { rng.below(200) as i128 } else { rng.below(1 + abud.clamp(0, 40) as u64) as i128 };
+                        if aeff - k > dmk && k <= abud && !(defects && rng.below(2) == 0) { k = (aeff - dmk).min(abud); }
+                        if aeff - k > dmk && k <= abud && !(defects && rng.below(2) == 0) { st(&[NEG_INTO, d, a]) } else { st(&[RESCALE_INTO, d, a, 0, k]) }
+                    }
+                    33 => st(&[RESCALE_ASSIGN, d, 0, 0, if wild { rng.below(200) as i128 } else { rng.below(1 + dbud.clamp(0, 40) as u64) as i128 }]),
+                    34 => st(&[ALIGN, d, 0, bb]),
+                    35 => st(&[COMPACT, d]),
+                    36 => { let need = (dl + dbud + b - 1) / b; st(&[REALLOC, d, 0, 0, (need + rng.range(-1, 2) as i128).max(1)]) }
+                    37 => st(&[COMPACT_COPY, d, a]),
+                    38 => {
+                        if rng.below(3) == 0 { let (l, lbp) = ptmeta(rng, dbud); st(&[DECRYPT, d, 0, 0, l, lbp]) }
+                        else { let l = rng.below(1 + dmk.min(50) as u64) as i128; st(&[SET_META, d, 0, 0, l, if wild { rng.below(400) as i128 } else { rng.below(1 + (dmk - l).max(0) as u64) as i128 }]) }
+                    }
+                    _ => { fresh(rng, &mut mach, &mut prog, d, &mut push); continue; }
+                };
+                let _ = (bl, bbud, asz);
+                let status = push(&mut mach, &mut prog, s);
+                if status == ST_PANIC { break; }
+                let (l2, b2, s2) = mach.meta(d as usize);
+                poisoned[d as usize] = l2 + b2 > s2 * b;
+            }
+            prog
+        }
+    };
+}
+gen_impl!(fft64ref);
+gen_impl!(ntt120ref);
+
+/// (backend, log n, base2k, kmax)
+const CONFIGS: [(i128, usize, usize, usize); 4] = [(1, 7, 19, 152), (3, 7, 52, 312), (1, 8, 16, 128), (3, 8, 45, 270)];
+
 pub fn generate(tier: &str, seed: u64) -> Vec<Rec> {
-    let _ = (tier, seed);
+    let (value, tier) = match tier.strip_prefix("value:") { Some(t) => (true, t), None => (false, tier) };
+    let mut rng = Rng::new(seed ^ if value { 0x5a5a } else { 0 });
+    let nprog = if tier == "thorough" { 400 } else { 80 };
+    let code = if value { 16002 } else { 16001 };
     let mut out = Vec::new();
-    let st = |v: &[i128]| { let mut x = v.to_vec(); x.resize(10, 0); x };
-    for be in [1i128, 3] {
-        let (b2k, kmax) = if be == 1 { (19i128, 152i128) } else { (52i128, 312i128) };
-        let sz = kmax / b2k;
-        let (ld, lb) = if be == 1 { (30i128, 10i128) } else { (40i128, 30i128) };
+    for i in 0..nprog {
+        let (be, logn, b2k, kmax) = CONFIGS[i % CONFIGS.len()];
+        let nsteps = 8 + rng.below(28) as usize;
+        // every fourth program of the metadata stream may walk into the known defect classes
+        let defects = !value && i % 4 == 3;
+        let steps = if be == 1 { fft64ref(&mut rng, logn, b2k, kmax, nsteps, defects) } else { ntt120ref(&mut rng, logn, b2k, kmax, nsteps, defects) };
+        out.push(Rec::new(code, vec![be, logn as i128, b2k as i128, kmax as i128, chk_flag()], steps));
+    }
+    if value {
+        for logm in 1..=12i128 { for kind in [0i128, 3] { for e in [0i128, 20, -20] {
+            out.push(Rec::new(16003, vec![logm, rng.next() as u32 as i128, kind, e], vec![]));
+        } } }
+    } else {
+        // usize overflow probes (absurd scalars): div_pow2_into / mul_pow2_into / set_meta_checked
         let big = (1i128 << 64) - 1;
-        let progs: Vec<Vec<Vec<i128>>> = vec![
-            // encrypt with a noise position beyond the ciphertext
-            vec![st(&[ALLOC, 0, 0, 0, sz - 2]), st(&[ENCRYPT, 0, 0, 0, ld, lb, kmax, 11, 0])],
-            // enc_k = 0 / below pt precision
-            vec![st(&[ALLOC, 0, 0, 0, sz]), st(&[ENCRYPT, 0, 0, 0, 0, 0, 0, 11, 0])],
-            vec![st(&[ALLOC, 0, 0, 0, sz]), st(&[ENCRYPT, 0, 0, 0, ld, lb, ld - 1, 11, 0])],
-            vec![st(&[ALLOC, 0, 0, 0, sz]), st(&[ENCRYPT, 0, 0, 0, ld, lb, ld + 1, 11, 0])],
-            // add_const_rnx with a constant more precise than the ciphertext
-            vec![st(&[ALLOC, 0, 0, 0, 2]), st(&[ENCRYPT, 0, 0, 0, 2*b2k - 8, 8, 2 * b2k, 11, 0]), st(&[ADD_CR_ASSIGN, 0, 0, 0, 50, 0, 1, 5])],
-            // div_pow2 with absurd bits
-            vec![st(&[ALLOC, 0, 0, 0, sz]), st(&[ALLOC, 1, 0, 0, sz - 1]), st(&[ENCRYPT, 0, 0, 0, ld, lb, kmax, 11, 0]), st(&[DIVPOW2_INTO, 1, 0, 0, big])],
-            vec![st(&[ALLOC, 0, 0, 0, sz]), st(&[ALLOC, 1, 0, 0, sz - 1]), st(&[ENCRYPT, 0, 0, 0, ld, lb, kmax, 11, 0]), st(&[MULPOW2_INTO, 1, 0, 0, big])],
-            // polluted destination after a failed neg_into, then compact_copy / neg_assign / decrypt
-            vec![st(&[ALLOC, 0, 0, 0, sz]), st(&[ALLOC, 1, 0, 0, 1]), st(&[ALLOC, 2, 0, 0, 1]), st(&[ENCRYPT, 0, 0, 0, ld, lb, kmax, 11, 0]), st(&[NEG_INTO, 1, 0]),
-                 st(&[NEG_ASSIGN, 1]), st(&[RESCALE_ASSIGN, 1, 0, 0, 2]), st(&[COMPACT_COPY, 2, 1]), st(&[COMPACT, 1])],
-            vec![st(&[ALLOC, 0, 0, 0, sz]), st(&[SET_META, 0, 0, 0, big, 2])],
-        ];
-        for steps in progs { out.push(Rec::new(16002, vec![be, 7, b2k, kmax], steps)); }
+        for (be, logn, b2k, kmax) in [CONFIGS[0], CONFIGS[1]] {
+            let (b, sz) = (b2k as i128, (kmax / b2k) as i128);
+            let pre = vec![st(&[ALLOC, 0, 0, 0, sz]), st(&[ALLOC, 1, 0, 0, sz - 1]), st(&[ENCRYPT, 0, 0, 0, 30, 10, sz * b, 11, 0])];
+            for last in [st(&[DIVPOW2_INTO, 1, 0, 0, big]), st(&[MULPOW2_INTO, 1, 0, 0, big]), st(&[SET_META, 1, 0, 0, big, 2]), st(&[DIVPOW2_INTO, 1, 0, 0, big - 7])] {
+                let mut p = pre.clone();
+                p.push(last);
+                out.push(Rec::new(code, vec![be, logn as i128, b as i128, kmax as i128, chk_flag()], p));
+            }
+        }
     }
     out
 }
 
+/// same command line as `poulpy_verif_harness::run_main`; in `exec` mode the overflow-check flag of a program record
+/// (ps[4]) is set to this build's, so that a replay file can be run under both profiles
 fn main() {
-    poulpy_verif_harness::run_main(generate, exec)
+    use std::io::{BufRead, Write};
+    if std::env::var("C16_TRACE").is_ok() { std::panic::set_hook(Box::new(|i| { eprintln!("  at {:?}: {}", i.location().map(|l| format!("{}:{}", l.file(), l.line())), i)})); } else { std::panic::set_hook(Box::new(|_| {})); }
+    let args: Vec<String> = std::env::args().collect();
+    match args.get(1).map(|s| s.as_str()).unwrap_or("") {
+        "gen" => {
+            let seed: u64 = args[3].parse().unwrap();
+            let mut f = std::io::BufWriter::new(std::fs::File::create(&args[4]).unwrap());
+            let recs = generate(&args[2], seed);
+            for r in &recs { let o = exec(r); writeln!(f, "{}", r.line(&o)).unwrap(); }
+            eprintln!("harness: {} records", recs.len());
+        }
+        "exec" => {
+            let inp = std::io::BufReader::new(std::fs::File::open(&args[2]).unwrap());
+            let mut f = std::io::BufWriter::new(std::fs::File::create(&args[3]).unwrap());
+            for line in inp.lines() {
+                if let Some(mut r) = Rec::parse(&line.unwrap()) {
+                    if (r.code == 16001 || r.code == 16002) && r.ps.len() >= 5 { r.ps[4] = chk_flag(); }
+                    let o = exec(&r);
+                    writeln!(f, "{}", r.line(&o)).unwrap();
+                }
+            }
+        }
+        _ => { eprintln!("usage: <bin> gen <tier> <seed> <out> | exec <in> <out>"); std::process::exit(2); }
+    }
 }
